@@ -37,7 +37,7 @@ NewConn(requirepass) ==
                            \* everything is written before it waits for input)
    quit |-> FALSE, closed |-> FALSE, returned |-> FALSE, lost |-> FALSE,
    wild |-> FALSE,         \* the client sends arbitrary bytes (C07 offender): replies are only required to be RESP frames
-   eos |-> "none",         \* "none" | "half" | "full": how the client ended the stream
+   eos |-> "none",         \* "none" | "half" | "full": how the client ended the stream; "stop": the application stopped the server
    wfail |-> FALSE,        \* a write failed (client gone)
    dropped |-> FALSE,      \* the server answered a protocol error by closing
    open |-> <<>>,          \* open spans: sequence of [id, parent]
